@@ -100,7 +100,7 @@ Theorem extraction_stores_token_wide : forall tok,
   (forallb (fun u => u <=? 0x10FFFF) tok = true ->
      set_from_token CtWchar tok = Ok (flat_map utf8_enc tok) /\ set_from_token CtChar32 tok = Ok (flat_map utf8_enc tok)) /\
   (forallb (fun u => u <=? 0x10FFFF) tok = false -> set_from_token CtWchar tok = Throw UnicodeError).
-Proof. intros tok. split; [exact (stored_wide tok) | exact (stored_wide_rejects tok)]. Qed.
+Proof. exact stored_wide_both. Qed.
 Print Assumptions extraction_stores_token_wide.
 
 (* extraction inverts insertion on whitespace-free text *)
@@ -109,7 +109,7 @@ Theorem extraction_inverts_insertion : forall s,
      set_from_token CtChar (extract_token CtChar (insert_units CtChar s)) = Ok s) /\
   (nospace (decode_utf8_lax s) = true -> forallb (fun u => u <=? 0x10FFFF) (decode_utf8_lax s) = true ->
      set_from_token CtWchar (extract_token CtWchar (insert_units CtWchar s)) = Ok (flat_map utf8_enc (decode_utf8_lax s))).
-Proof. intros s. split; [exact (extract_insert_char s) | exact (extract_insert_wide s)]. Qed.
+Proof. exact extract_insert_both. Qed.
 Print Assumptions extraction_inverts_insertion.
 
 Example extraction_example :
